@@ -51,6 +51,16 @@ def unwinder_loops(fn):
     return out
 
 
+def unwinder_syn_fn(ctx):
+    """the function that holds the unwinder loop, located by role (walks defer_stack, compiles defers), not by name"""
+    F = ctx.facts
+    cands = [f for f in F.fns if f.crate == "codegen" and f.kind == "fn" and unwinder_loops(f)]
+    if len(cands) != 1:
+        raise LookupError("functions containing a defer unwinder loop: %s" % [c.norm for c in cands])
+    name = short(cands[0].norm)
+    return ctx.syn.fn("FunctionCompiler::" + name, "codegen/src/compiler/functions.rs")
+
+
 def lookups(fn, field):
     out = []
     for c in fn.calls():
@@ -80,13 +90,20 @@ def r03a(ctx, run):
                     run.finding(owner, "lookup-unused:%s" % field, lk.file, lk.ln, "scope target looked up in self.%s but no jump uses it (analysis lost the flow)" % field)
                     continue
                 unw = unwinder_loops(fn)
+                # calls to a function that itself contains the unwinder loop count as passing the unwinder
+                helper_blocks = set()
+                for c2 in fn.calls():
+                    for tgt in F.by_norm.get(strip_generics(c2.callee), []):
+                        if tgt is not fn and tgt.crate == "codegen" and unwinder_loops(tgt):
+                            helper_blocks.add(c2.bb)
                 for j in jumps:
-                    # every path from the lookup to the jump must enter an unwinder loop header
-                    heads = {h for h, _ in unw}
+                    # every path from the lookup to the jump must enter an unwinder loop header (or a call to the unwinder)
+                    heads = {h for h, _ in unw} | helper_blocks
+                    unw = unw or ([("call", helper_blocks)] if helper_blocks else [])
                     reach_without = fn.can_reach(lk.bb, j.bb, avoid=heads) or lk.bb == j.bb
                     what = "%s: jump to self.%s[label] (lookup line %d, jump line %d)" % (short(owner), field, lk.ln, j.ln)
                     if unw and not reach_without:
-                        run.ok(j.site(), what + " passes the defer unwinder (loop at bb%s) on every path" % sorted(heads))
+                        run.ok(j.site(), what + " passes the defer unwinder (at bb%s) on every path" % sorted(heads, key=str))
                     else:
                         run.finding(owner, "jump-without-unwind:%s" % field, j.file, j.ln,
                                     what + " does not pass the defer unwinder: the defers of every block being left are skipped when control leaves this way")
@@ -162,11 +179,11 @@ def r03b(ctx, run):
                         what + " but %s: break_to_label stops unwinding only at a frame whose id equals the target, so a jump to this target runs the defers of "
                         "EVERY enclosing block, and those run again when their blocks end" % detail)
     # the unwinder's stop test compares frame.id with the label
-    btl = ctx.syn.fn("FunctionCompiler::break_to_label", "codegen/src/compiler/functions.rs")
+    btl = unwinder_syn_fn(ctx)
     c = canon(btl.body)
-    run.check("if let Some(id) = frame.id" in c and "(id == label)" in c and "break" in c, btl.site(), "unwinder stops at the frame whose id == label", "FunctionCompiler::break_to_label",
+    run.check("if let Some(id) = frame.id" in c and "(id == label)" in c and "break" in c, btl.site(), "unwinder stops at the frame whose id == label", "FunctionCompiler::" + btl.name,
               "stop-test", btl.file, btl.ln, "the unwinder must stop (without running it) at the frame whose id equals the target label")
-    run.check("self.defer_stack.extend(used_frames.into_iter().rev())" in c, btl.site(), "unwinder restores the frames it walked (they are left again on other paths)", "FunctionCompiler::break_to_label",
+    run.check("self.defer_stack.extend(used_frames.into_iter().rev())" in c, btl.site(), "unwinder restores the frames it walked (they are left again on other paths)", "FunctionCompiler::" + btl.name,
               "restore", btl.file, btl.ln, "frames popped while unwinding must be pushed back in their original order")
 
 
@@ -185,10 +202,10 @@ def r03c(ctx, run):
                           "compile", f.file, lp["ln"], "loop over defers does not compile them")
     if n < 2:
         raise LookupError("loops over .defers: %d" % n)
-    btl = ctx.syn.fn("FunctionCompiler::break_to_label", "codegen/src/compiler/functions.rs")
+    btl = unwinder_syn_fn(ctx)
     wl = [x for x in walk(btl.body) if x.get("k") == "while" and x["c"].get("k") == "let"]
     good = len(wl) == 1 and canon(wl[0]["c"]["e"]) == "self.defer_stack.last().cloned()" and "self.defer_stack.pop()" in canon(wl[0]["b"])
-    run.check(good, btl.site(), "unwinder visits frames innermost first (last(), then pop())", "FunctionCompiler::break_to_label", "innermost-first", btl.file, btl.ln,
+    run.check(good, btl.site(), "unwinder visits frames innermost first (last(), then pop())", "FunctionCompiler::" + btl.name, "innermost-first", btl.file, btl.ln,
               "the unwinder must take frames from the top of defer_stack")
     # Stmt::Defer appends to the innermost frame
     cs = ctx.syn.fn("FunctionCompiler::compile_stmt", "codegen/src/compiler/functions.rs")
